@@ -193,6 +193,17 @@ def build(r, factors, how):
     return acc
 
 
+def expected_categories(factors, how, power=1):
+    """category -> net exponent the request names (the dict forms keep the first entry of a category; arithmetic adds up)"""
+    want = {}
+    for c, _u, e in factors:
+        if how in ("CreateDerived", "ObtainQuantity(dict)", "ObtainQuantity(list)"):
+            want.setdefault(c, e)
+        else:
+            want[c] = want.get(c, 0) + e
+    return {c: e * power for c, e in want.items() if e}
+
+
 def derived(ctx, db, B, r, n):
     qts = list(B)
     for qt, (us, cats) in B.items():
@@ -210,6 +221,39 @@ def derived(ctx, db, B, r, n):
             ctx.count("route raised %s" % type(e).__name__)
             continue
         q = o if not hasattr(o, "GetQuantity") else o.GetQuantity()
+        # the quantity is the one the request names: every category at the exponent the factors add up to (what the strings are
+        # compared with below is the quantity's own composing map - which must itself be the map that was asked for)
+        power = 1
+        if how in ("Scalar", "Quantity") and i % 3 == 0:
+            # ... also after the whole amount is raised to a power: every exponent is multiplied
+            power = 2 + i % 2
+            try:
+                o = o**power
+                q = o if not hasattr(o, "GetQuantity") else o.GetQuantity()
+                case = dict(case, raised_to=power)
+            except Exception as e:
+                ctx.count("power of a derived amount raised %s" % type(e).__name__)
+                power = 1
+        ctx.ev()
+        want_c = expected_categories(factors, how, power)
+        got_c = {c: e for c, (_u, e) in q.GetCategoryToUnitAndExps().items() if e}
+        types_of = {}
+        for c, _u, _e in factors:
+            types_of.setdefault(_TYPE_OF[c], set()).add(c)
+        if any(len(cs) > 1 for cs in types_of.values()) and how not in ("CreateDerived", "ObtainQuantity(dict)", "ObtainQuantity(list)"):
+            # two categories of one quantity type meet in arithmetic: they cancel against each other (length2 / diameter is a
+            # length) - the request then only names the net exponent of the quantity type
+            def by_type(d):
+                out = {}
+                for c, e in d.items():
+                    t = _TYPE_OF.get(c) or db.GetCategoryQuantityType(c)
+                    out[t] = out.get(t, 0) + e
+                return {t: e for t, e in out.items() if e}
+
+            want_c, got_c = by_type(want_c), by_type(got_c)
+        if got_c != want_c:
+            ctx.violation("derived:composing-map-is-not-the-one-the-request-names", dict(case, requested=want_c, got=got_c), replay=case)
+            continue
         s = check_quantity(ctx, db, q, case, "derived")
         m = q.GetCategoryToUnitAndExps()
         ctx.nt(("derived", tuple(sorted((u, e) for _c, (u, e) in m.items()))))
